@@ -232,6 +232,9 @@ def main():
         if isinstance(extra, dict) and extra.get('error'):
             p = dict(ok=False, what='translator', theorems=[], axioms={}, detail=extra['error'])
         else:
+            drv = lake_build(getattr(mod, 'DRIVER_MODULES', []) or ['EpyVerif.Model.Sim', 'EpyVerif.Model.GFFast', 'EpyVerif.Model.Bbt'])
+            if drv.returncode != 0:
+                raise RuntimeError('model modules used by the drivers do not build: ' + (drv.stdout + drv.stderr)[-1500:])
             p = stage_proof(mod.LEAN_MODULES, run, a.tier, extra)
         t = mod.tie(ctx)
         known = [e for e in load_known(a.prop) if e.get('status') == 'known']
